@@ -3,7 +3,7 @@
   Property theorems only (helper lemmas live in CB/Lemmas/C03*.lean).  Every theorem quantifies
   over all limb counts (list lengths) and all operand values unless a size is named.
 -/
-import CB.Lemmas.C03Boxed
+import CB.Lemmas.C03BoxedKara
 import CB.Lemmas.C03Int
 namespace CB.P03
 open CB CB.Mul CB.Karatsuba
@@ -237,18 +237,23 @@ theorem uint_square_forms (x : List Nat) (hx : WF x) :
   let h := square_wide_exact x hx
   ⟨h.concat.1, h.wrapping, h.checkedSquare.1, h.checkedSquare.2, h.saturating⟩
 
-/-! ### T03.7 boxed multiplication (`BoxedUint`)
+/-! ### T03.7 boxed multiplication (`BoxedUint`), after fix commit a99029b in `adc_mul_limbs` -/
 
-  FULL STATEMENT (unproved — and FALSE for the code as written, see `boxed_mul_not_exact`):
-    theorem boxed_mul_exact (x y : List Nat) (hx : WF x) (hy : WF y) :
-      val (boxedMul x y) = val x * val y ∧ WF (boxedMul x y) ∧ (boxedMul x y).length = x.length + y.length
-    theorem boxed_square_exact (x : List Nat) (hx : WF x) :
-      val (boxedSquare x) = val x * val x ∧ WF (boxedSquare x) ∧ (boxedSquare x).length = 2 * x.length
-  Proved below: the schoolbook route (min length < 32; squaring < 64 limbs), the threshold fallback
-  inside `karatsuba_mul_limbs` / `karatsuba_square_limbs` (recursion leaves), `adc_mul_limbs` on a buffer
-  whose upper part is still zero, the API shapes given an exact product (`H_mul`), and the NEGATION of
-  the full statement with its witness.  The recursive boxed Karatsuba bodies (sizes > 24 / > 48) are
-  tied to the oracle only by the correspondence run (L0 printed on every line). -/
+/-- `adc_mul_limbs(lhs, rhs, out)` adds the schoolbook product to ANY accumulator exactly, for all
+    lengths: `out' + B^|out|·carry = out + lhs·rhs`, carry ≤ 1.  (Before the fix this was false:
+    `carry.wrapping_add(carry2)` could wrap — former finding C03-boxed-mul-trailing-carry.) -/
+theorem adc_mul_limbs_exact (x y out : List Nat) (hx : WF x) (hy : WF y) (ho : WF out)
+    (hl : out.length = x.length + y.length) :
+    val (adcMulLimbs x y out).1 + B ^ out.length * (adcMulLimbs x y out).2 = val out + val x * val y ∧
+    WF (adcMulLimbs x y out).1 ∧ (adcMulLimbs x y out).1.length = out.length ∧
+    (adcMulLimbs x y out).2 ≤ 1 := adcMulLimbs_spec x y out hx hy ho hl
+
+/-- `out.fill(ZERO); adc_mul_limbs(lhs, rhs, out)` — the fallback of `karatsuba_mul_limbs` — is the
+    exact product and returns carry 0 -/
+theorem adc_mul_limbs_zero_exact (x y : List Nat) (hx : WF x) (hy : WF y) :
+    val (adcMulLimbs x y (uzero (x.length + y.length))).1 = val x * val y ∧
+    (adcMulLimbs x y (uzero (x.length + y.length))).2 = 0 :=
+  ⟨(adcMulLimbs_zero x y hx hy).1, (adcMulLimbs_zero x y hx hy).2.2.2⟩
 
 /-- `BoxedUint::mul` below the Karatsuba threshold (some operand shorter than
     `KARATSUBA_MIN_STARTING_LIMBS`) is the exact product, all lengths incl. unequal and 0 -/
@@ -260,51 +265,33 @@ theorem boxed_mul_small_exact (x y : List Nat) (hx : WF x) (hy : WF y)
   rw [if_neg (by omega)]
   exact schoolbookMul_spec x y hx hy
 
-/-- `out.fill(ZERO); adc_mul_limbs(lhs, rhs, out)` — the fallback of `karatsuba_mul_limbs` — is the
-    schoolbook product and returns carry 0 (its `carry.wrapping_add(carry2)` is `0 + carry2` there) -/
-theorem adc_mul_limbs_zero_exact (x y : List Nat) (hx : WF x) (hy : WF y) :
-    adcMulLimbs x y (uzero (x.length + y.length)) = (schoolbookMul x y, 0) := adcMulLimbs_zero x y hx hy
-
-/-- `karatsuba_mul_limbs` at the recursion leaves (even-floored overlap ≤ `KARATSUBA_MAX_REDUCE_LIMBS`)
-    is exact, for every fuel -/
-theorem kara_mul_limbs_leaf_exact (fuel : Nat) (x y : List Nat) (hx : WF x) (hy : WF y)
-    (hs : (if min x.length y.length % 2 = 1 then min x.length y.length - 1 else min x.length y.length)
-      ≤ Extracted.karatsubaMaxReduceLimbs) :
+/-- T03.7 (full) `karatsuba_mul_limbs` is the exact product for ALL lengths of both operands (equal,
+    unequal, odd, trailing `xt` / `yt` passes) and every fuel, by induction over the recursion:
+    `|x0-x1|`, `|y1-y0|`, the conditionally negated middle product in the zeroed buffer, the six addition
+    loops (`carry`/`carry2`, no `wrapping_add` wraps, dropped final carry), both trailing passes with
+    their dropped / propagated carries (shown 0 because the product fits the buffer). -/
+theorem kara_mul_limbs_exact (fuel : Nat) (x y : List Nat) (hx : WF x) (hy : WF y) :
     val (karaMulLimbs fuel x y) = val x * val y ∧ WF (karaMulLimbs fuel x y) ∧
-    (karaMulLimbs fuel x y).length = x.length + y.length := by
-  have e : karaMulLimbs fuel x y = schoolbookMul x y := by
-    cases fuel with
-    | zero => simp only [karaMulLimbs]; rw [adcMulLimbs_zero x y hx hy]
-    | succ f =>
-      simp only [karaMulLimbs]
-      rw [if_pos hs, adcMulLimbs_zero x y hx hy]
-  rw [e]; exact schoolbookMul_spec x y hx hy
+    (karaMulLimbs fuel x y).length = x.length + y.length := karaMulLimbs_spec fuel x y hx hy
 
-/-- `adc_mul_limbs` is NOT exact on an arbitrary accumulator: with carry = 1 pending and
-    `carry2 = Limb::MAX`, `carry.wrapping_add(carry2)` wraps to 0 and `2^(64·k)` is lost. -/
-theorem adc_mul_limbs_not_exact_in_general :
-    val (adcMulLimbs [WMAX, WMAX] [WMAX, WMAX] [WMAX, WMAX, WMAX, WMAX]).1
-      + B ^ 4 * (adcMulLimbs [WMAX, WMAX] [WMAX, WMAX] [WMAX, WMAX, WMAX, WMAX]).2
-    ≠ val [WMAX, WMAX, WMAX, WMAX] + val [WMAX, WMAX] * val [WMAX, WMAX] := by decide
+/-- T03.7 (full) `BoxedUint::mul` (and the by-value operators, `*=`, `WideningMul`) returns every limb
+    of the exact product for ALL limb counts of both operands. -/
+theorem boxed_mul_exact (x y : List Nat) (hx : WF x) (hy : WF y) :
+    val (boxedMul x y) = val x * val y ∧ WF (boxedMul x y) ∧
+    (boxedMul x y).length = x.length + y.length := by
+  unfold boxedMul
+  split
+  · exact karaMulLimbs_spec _ x y hx hy
+  · exact schoolbookMul_spec x y hx hy
 
-set_option maxRecDepth 100000 in
-/-- NEGATION of the full boxed statement, with witness: for a 33-limb left operand and a 34-limb right
-    operand `BoxedUint::mul` (as the code computes it: the trailing `adc_mul_limbs(yt, x, …)` pass of
-    `karatsuba_mul_limbs`) does not return the product.  Finding C03-boxed-mul-trailing-carry. -/
-theorem boxed_mul_not_exact : val (boxedMul witnessLhs witnessRhs) ≠ val witnessLhs * val witnessRhs := by
-  decide +kernel
-
-/-- boxed API shapes, given an exact wide product: `wrapping_mul` = product mod `2^BITS(self)`;
-    `checked_mul` is `some` exactly when it fits (the `&a * &b` operator panics otherwise).
-    `H_mul` is discharged by `boxed_mul_small_exact` below the threshold; above it is exercised only. -/
-theorem boxed_forms_partial (x y : List Nat)
-    (H_mul : val (boxedMul x y) = val x * val y ∧ WF (boxedMul x y) ∧
-      (boxedMul x y).length = x.length + y.length) :
+/-- boxed API shapes: `wrapping_mul` = product mod `2^BITS(self)`; `checked_mul` is `some` exactly when
+    the product fits `self`'s precision (the `&a * &b` operator panics otherwise) -/
+theorem boxed_forms (x y : List Nat) (hx : WF x) (hy : WF y) :
     val (boxedWrappingMul x y) = (val x * val y) % B ^ x.length ∧
     (boxedWrappingMul x y).length = x.length ∧
     (boxedCheckedMul x y).2 = mask (decide (val x * val y < B ^ x.length)) ∧
     (val x * val y < B ^ x.length → val (boxedCheckedMul x y).1 = val x * val y) := by
-  obtain ⟨h1, h2, h3⟩ := H_mul
+  obtain ⟨h1, h2, h3⟩ := boxed_mul_exact x y hx hy
   have hp := exactPair_of_list (n := x.length) (m := y.length) h2 h3 h1
   refine ⟨hp.lo_eq, hp.2.2.1, ?_, fun hlt => ?_⟩
   · show allZeroMask ((boxedMul x y).drop x.length) = _
@@ -313,24 +300,26 @@ theorem boxed_forms_partial (x y : List Nat)
   · show val ((boxedMul x y).take x.length) = _
     rw [hp.lo_eq, Nat.mod_eq_of_lt hlt]
 
-/-- `BoxedUint::square` below `2·KARATSUBA_MIN_STARTING_LIMBS` limbs is the exact square -/
-theorem boxed_square_small_exact (x : List Nat) (hx : WF x)
-    (hs : x.length < Extracted.karatsubaMinStartingLimbs * Extracted.boxedSquareStartFactor) :
+/-- T03.7 (squaring, full) `karatsuba_square_limbs` is the exact square for ALL lengths and every fuel, by
+    induction over the recursion: `|x0 - x1|`, the complemented middle square, the six addition loops with
+    `carry`/`carry2` (no `wrapping_add` wraps), the dropped final carry. -/
+theorem kara_square_limbs_exact (fuel : Nat) (x : List Nat) (hx : WF x) :
+    val (karaSquareLimbs fuel x) = val x * val x ∧ WF (karaSquareLimbs fuel x) ∧
+    (karaSquareLimbs fuel x).length = 2 * x.length := karaSquareLimbs_spec fuel x hx
+
+/-- T03.7 (squaring, full) `BoxedUint::square` is the exact square for ALL limb counts -/
+theorem boxed_square_exact (x : List Nat) (hx : WF x) :
     val (boxedSquare x) = val x * val x ∧ WF (boxedSquare x) ∧ (boxedSquare x).length = 2 * x.length := by
   unfold boxedSquare
-  rw [if_neg (by omega)]
-  exact schoolbookSquare_spec x hx
+  split
+  · exact karaSquareLimbs_spec _ x hx
+  · exact schoolbookSquare_spec x hx
 
-/-- `karatsuba_square_limbs` at its leaves (size ≤ 2·MAX_REDUCE or odd) is exact, for every fuel -/
-theorem kara_square_limbs_leaf_exact (fuel : Nat) (x : List Nat) (hx : WF x)
-    (hs : x.length ≤ Extracted.karatsubaMaxReduceLimbs * Extracted.karaSquareReduceFactor ∨ x.length % 2 = 1) :
-    val (karaSquareLimbs fuel x) = val x * val x ∧ WF (karaSquareLimbs fuel x) ∧
-    (karaSquareLimbs fuel x).length = 2 * x.length := by
-  have e : karaSquareLimbs fuel x = schoolbookSquare x := by
-    cases fuel with
-    | zero => rfl
-    | succ f => simp only [karaSquareLimbs]; rw [if_pos hs]
-  rw [e]; exact schoolbookSquare_spec x hx
+/-- boxed squaring IS boxed multiplication by itself, limb for limb, at every length -/
+theorem boxed_square_eq_mul_self (x : List Nat) (hx : WF x) : boxedSquare x = boxedMul x x := by
+  have ⟨a1, a2, a3⟩ := boxed_square_exact x hx
+  have ⟨b1, b2, b3⟩ := boxed_mul_exact x x hx hx
+  exact val_inj a2 b2 (by rw [a3, b3]; omega) (by rw [a1, b1])
 
 /-! ### `Int` products (sign–magnitude, `src/int/mul.rs`) -/
 
